@@ -384,3 +384,38 @@ def r7(cx):
                      "layer above re-checks bounds, so a range cursor returns a key outside [start, end)" % (b.id, "forward" if d == "fwd" else "backward", fld))
     cx.floor("forward positioning sites of SkiplistIterator", fw, 3)
     cx.floor("backward positioning sites of SkiplistIterator", bw, 2)
+
+
+@rule("C09", "C09.R8", "memtable cursor: the cached node of the opposite bound never ends a positioning search")
+def r8(cx):
+    """`upper_node` / `lower_node` cache the first node found outside a bound so that it need not be compared again.  A
+    search that moves backward over nodes >= upper (seek_last) must be able to step over the cached `upper_node`; if a loop
+    exit of such a search depends on `upper_node` (e.g. through `is_valid()`), a cursor that ran off the upper end earlier
+    stops on the cached node and reports an empty range.  Symmetric for forward searches and `lower_node`."""
+    f = cx.f
+    n = 0
+    for b in f.scan_bodies():
+        if b.kind != "method" or b.impl_trait or (b.self_ty or "").split("<")[0].split("::")[-1] != "SkiplistIterator":
+            continue
+        for lookup, other in (("get_prev", "upper_node"), ("get_next", "lower_node")):
+            mv = [c for c in b.calls if c.bb in b.live and c.primary.split("::")[-1] == lookup and b.in_cycle(c.bb)]
+            for c in mv:
+                cyc = loop_of(b, c.bb)
+                for x in sorted(cyc):
+                    t = b.blocks[x]["t"]
+                    if t[0] != "switch" or not any(y not in cyc and not b.blocks[y]["c"] for y in b.succ[x]):
+                        continue
+                    n += 1
+                    o = origin_of_operand(b, t[1])
+                    reads = set(o.field_names())
+                    for cc in o.calls:
+                        for tg in cc.targets:
+                            cid = f.canon_to_id.get(tg)
+                            if cid and f.bodies[cid].self_ty == b.self_ty:
+                                R, _ = self_field_summary(f, f.bodies[cid], "may")
+                                reads |= R
+                    cx.check(other not in reads, "`%s`: the %s search is not ended by the cached `%s`" % (b.id, "backward" if lookup == "get_prev" else "forward", other),
+                             "bound-cache-ends-search|%s|%s" % (b.name, other), b.where(x),
+                             "`%s` leaves its %s search on a condition that reads `%s` (the cached first node beyond the OTHER bound): once an earlier run cached that node the "
+                             "search stops on it and the cursor reports no entry although in-range keys exist" % (b.id, "backward" if lookup == "get_prev" else "forward", other))
+    cx.floor("loop exits of SkiplistIterator searches", n, 1)
